@@ -83,7 +83,7 @@ fn base(method: &str, prob: Problem, x0: f64, xend: f64) -> Case {
         id: 0, api: "solve_ivp".into(), method: method.into(), problem: prob, x0, xend, y0,
         rtol: vec![1e-3], atol: vec![1e-6], tol_vec: false, dir_code: 0, first_step: None, max_step: None, max_steps: None, min_step: None, t_eval: None, dense: false,
         events: vec![], jac: "fd".into(), jac_storage: "full".into(), mass_storage: "identity".into(), mass: "none".into(),
-        script: vec![], tags: vec![], budget: None, low_nodense: false, probe_restart: false, map: "id".into(),
+        script: vec![], tags: vec![], budget: None, low_nodense: false, low_nosolout: false, probe_restart: false, map: "id".into(),
     }
 }
 
@@ -661,6 +661,23 @@ fn fam_lowlevel(o: &mut Out, quick: bool, rng: &mut Rng) {
                 let dr = o.run(cd);
                 o.pair("C19", "equal_cb", &dr, &nd, "dense_output(false) does not change the accepted-step sequence");
                 o.pair("C12", "equal_cb", &dr, &nd, "building dense coefficients or not does not change the integration");
+            }
+            // the solver called without a callback takes the same steps as with a passive one
+            for (p, tol) in [(Problem::new("decay", 1.0), 1e-8), (Problem::new("vdp", 2.0), 1e-5)] {
+                let mut c = base(m, p, *x0, *xend);
+                c.api = "low".into();
+                c.rtol = vec![tol];
+                c.atol = vec![tol];
+                c.jac = "user".into();
+                if *m == "RK4" { c.first_step = Some((xend - x0) / 16.0); }
+                c.tags = vec!["passive_callback".into()];
+                let a = o.run(c.clone());
+                let mut v = c.clone();
+                v.low_nosolout = true;
+                v.tags = vec!["no_callback".into()];
+                let b = o.run(v);
+                o.pair("C02", "equal_low", &a, &b, "solve(.., None) integrates like solve(.., Some(passive callback))");
+                o.pair("C19", "equal_low", &a, &b, "solve(.., None) integrates like solve(.., Some(passive callback))");
             }
             // restart probes: the interpolant handed out for a step equals the one a fresh solver builds for that step
             if matches!(*m, "RK4" | "RK23" | "DOPRI5" | "DOP853") {
